@@ -226,12 +226,13 @@ CLAIMED = {
     "C18": dict(
         text="Machine-checked proof on import lists: with pairwise distinct bound names every permutation (sorting, merging, moving) of the import statements gives the same "
              "environment and every name resolves to its own statement's object; the side condition is necessary (alias-collision counterexample theorem); removing any selection of statements keeps every binding none of them makes, a shadowed statement can go; "
-             "and a decidable validator of import rewrites is sound (accepted => every used name is bound to the same object before and after). 6 theorems. The model's "
+             "and a decidable validator of import rewrites is sound (accepted => every used name is bound to the same object before and after); the star-import expansion (StarImport.expand: the decision and the explicit list of fix_starred_imports) lists every referenced name the module provides, "
+             "nothing it does not provide, and leaves no undefined name without a provider (star_expansion_keeps_bindings; the list of the undefined names alone drops a provided builtin-shadowing name - witness theorem, repaired by f6f2dbe / d8acabf). 8 theorems. The model's "
              "environment equals what CPython binds for stdlib import blocks; every changed output of the real import rules on generated import headers is put to the validator, a rejected rewrite is executed.",
         design="4/C18",
-        note="Trusted: Lean kernel; Imports.lean tied by suites binding and import-validate-model (the validator's verdict vs the identity of the objects CPython binds); importlib resolution, re-export tracing, __all__, star expansion are outside the model: execution oracle on a "
+        note="Trusted: Lean kernel; Imports.lean tied by suites binding and import-validate-model (the validator's verdict vs the identity of the objects CPython binds); StarImport.lean tied by suite star-expansion (the real fix_starred_imports on generated clients of the package tree, fed with the names Python itself star-imports); importlib resolution, re-export tracing, __all__ inference are outside the model: execution oracle on a "
              "generated package tree (fresh interpreter per client and rule) and a two-checkout history oracle.",
-        technique="Lean 4 proof (permutation invariance under a nodup side condition, removal lemmas, sound rewrite validator) + CPython binding correspondence + translation validation of the import rules + package-tree execution oracle",
+        technique="Lean 4 proof (permutation invariance under a nodup side condition, removal lemmas, sound rewrite validator, completeness of the star expansion) + CPython binding correspondence + star-expansion correspondence + translation validation of the import rules + package-tree execution oracle",
     ),
 }
 
